@@ -233,6 +233,9 @@ func (r *Reader) initFields() error {
 			}
 		} else {
 			lastPath = ent.Name
+			// An entry replaces an earlier entry of the same name (as it does when
+			// the tar is extracted), so the earlier one's chunks mustn't be used.
+			delete(r.chunks, ent.Name)
 
 			if ent.Uname != "" {
 				uname[ent.UID] = ent.Uname
